@@ -6,6 +6,7 @@ import numpy as np
 
 from checks import sched
 from mc import framework as fw
+from mc import pairhist
 
 PROPERTY = "C04"
 META = {
@@ -35,10 +36,12 @@ def shards(tier, seed):
         for name in sched.SCHEDS:
             for i in range(0, len(targets), chunk):
                 force.append({"prop": "C04", "force": True, "N": N, "sched": name, "targets": targets[i:i + chunk]})
-    return force + out
+    return pairhist.shards_for(PROPERTY, force=True) + force + out
 
 
 def run_shard(shard):
+    if shard.get("part") == "pairs":
+        return pairhist.run_pair_shard(shard, ("plan", "sched", "nf"))
     if shard.get("force"):
         return _force(shard)
     return sched.run_shard_for(shard)
@@ -80,6 +83,8 @@ def _force(shard):
 
 
 def replay(case):
+    if case.get("part") == "pairs":
+        return run_shard(case)["failures"]
     if case.get("force"):
         return _force(case)["failures"]
     return sched.replay_for(case)
